@@ -89,6 +89,67 @@ def oracle(text, cfg, src, out):
     return None
 
 
+def runtime_layout(text, cfg):
+    """Run/debug mode: the data statements, executed by the real machine after reset(), put their cells where the
+    data labels say (seed C04d: the machine started its data counter somewhere else under --big-stack)."""
+    if cfg["mode"] not in ("", "debug"):
+        return None
+    import io, contextlib
+    from hera.checker import check
+    from hera.data import DataLabel
+    from hera.parser import parse
+    from hera.vm import VirtualMachine
+    st = pc.make_settings(cfg)
+    try:
+        with contextlib.redirect_stdout(io.StringIO()), contextlib.redirect_stderr(io.StringIO()):
+            ops, msgs = parse(text, settings=st)
+            if msgs.errors:
+                return None
+            prog, msgs2 = check(ops, st)
+            if msgs2.errors or prog is None:
+                return None
+            vm = VirtualMachine(st)
+            vm.reset()
+            want = {}
+            cells = []
+
+            # names as written: a second parse, which check() has not touched (it substitutes symbols in place)
+            ops0, _ = parse(text, settings=pc.make_settings(cfg))
+            names = {}
+            for o0, o1 in zip(ops0, ops):
+                if type(o0).__name__ == "DLABEL" and o0.args and isinstance(o0.args[0], str):
+                    names[id(o1)] = o0.args[0]
+
+            def label_name(o):
+                return names.get(id(o))
+            src_data = [o for o in ops if type(o).__name__ in ("DLABEL", "INTEGER", "LP_STRING", "TIGER_STRING", "DSKIP")]
+            conv = list(prog.data)
+            ci = 0
+            for o in src_data:
+                if type(o).__name__ == "DLABEL":
+                    if label_name(o) is not None:
+                        want[label_name(o)] = vm.dc
+                    continue
+                if ci >= len(conv):
+                    return None
+                before = vm.dc
+                conv[ci].execute(vm)
+                if type(o).__name__ == "INTEGER":
+                    cells.append((before, conv[ci].args[0]))
+                ci += 1
+    except SystemExit:
+        return None
+    for name, addr in want.items():
+        v = prog.symbol_table.get(name)
+        if isinstance(v, DataLabel) and int(v) != addr and 0 <= addr < 65536:
+            return "DLABEL(%s) resolves to %d but the machine puts the next data cell at %d (data_start %d)" % (
+                name, int(v), addr, cfg["data_start"])
+    for addr, v in cells:
+        if isinstance(v, int) and 0 <= addr < 65536 and vm.load_memory(addr) != (v & 0xFFFF):
+            return "INTEGER(%d) was to be stored at %d, the machine holds %d there" % (v, addr, vm.load_memory(addr))
+    return None
+
+
 def gen_cases(ctx, n):
     rng = ctx.rng
     cases = []
@@ -131,7 +192,7 @@ def correspondence(ctx, model_available=True):
                 nontrivial.add(text)
         else:
             dist["rejected"] += 1
-        bad = oracle(text, cfg, desc, r)
+        bad = oracle(text, cfg, desc, r) or runtime_layout(text, cfg)
         if bad:
             res["spec_failures"].append({"what": "mode %r: %s" % (cfg["mode"], bad), "program": text, "settings": cfg})
     if model_available:
